@@ -184,7 +184,8 @@ mutual
     | union (packed : Bool) (aligned : Option Int) (ms : Members)
   inductive Members where
     | nil
-    | cons (d : MemDecl) (ty : Ty) (rest : Members)
+    | cons (d : MemDecl) (ty : Ty) (rest : Members)                 -- `_Alignas(d.alignas)` (constant; 0 = none)
+    | consT (d : MemDecl) (aty : Ty) (ty : Ty) (rest : Members)     -- `_Alignas(aty)` (type-name operand; d.alignas unused)
 end
 
 def primSize (t : TyName) : Int := ((primInfo t).1 : Nat)
@@ -204,13 +205,19 @@ mutual
     | .union p al ms => do
       let l ← unionLayout p (al.getD (STRUCT_INIT_ALIGN : Nat)) (← ms.toMems)
       pure (l.size, l.align)
-  /-- `struct_members`: mem->align = attr.align ? attr.align : mem->ty->align -/
+  /-- `struct_members`: mem->align = attr.align ? attr.align : mem->ty->align, where declspec left
+      attr.align = const_expr for `_Alignas(constant)` and typename(..)->align for `_Alignas(type-name)` (`Gen`) -/
   def Members.toMems : Members → Except Fail (List Mem)
     | .nil => .ok []
     | .cons d ty rest => do
       let (s, a) ← ty.sizeAlign
       let tl ← rest.toMems
-      pure ({ size := s, align := if d.alignas ≠ 0 then d.alignas else a, bitWidth := d.bitWidth, named := d.named } :: tl)
+      pure ({ size := s, align := memberAlign (alignasOfConst d.alignas) a, bitWidth := d.bitWidth, named := d.named } :: tl)
+    | .consT d aty ty rest => do
+      let (sa, aa) ← aty.sizeAlign
+      let (s, a) ← ty.sizeAlign
+      let tl ← rest.toMems
+      pure ({ size := s, align := memberAlign (alignasOfType sa aa) a, bitWidth := d.bitWidth, named := d.named } :: tl)
 end
 
 /-- full layout of an aggregate (size, align, member placements); other types have no members -/
